@@ -151,6 +151,12 @@ func elemKey(t types.Type) string {
 		return "S{" + strings.Join(parts, ",") + "}"
 	}
 	if len(ls) == 1 {
+		// named string-like types get their own element memory (no unsafe
+		// casts exist between them); integer kinds stay structural because of
+		// the []UID <-> []uint32 header casts.
+		if n, ok := t.(*types.Named); ok && ls[0].Sort == SStr && n.Obj().Pkg() != nil {
+			return n.Obj().Pkg().Name() + "." + n.Obj().Name()
+		}
 		return leafKindName(ls[0])
 	}
 	return typeKeyRec(t, 1)
@@ -318,6 +324,25 @@ func refsBelow(t types.Type, ls []Term, alloc Term) Term {
 				switch l.Typ.Underlying().(type) {
 				case *types.Pointer, *types.Map, *types.Chan:
 					cs = append(cs, Lt(ls[i], alloc))
+				}
+			}
+		}
+	}
+	return And(cs...)
+}
+
+// refsBelowEach: like refsBelow with one frontier per leaf.
+func refsBelowEach(t types.Type, ls []Term, bounds []Term) Term {
+	var cs []Term
+	for i, l := range layout(t) {
+		switch l.Role {
+		case "base":
+			cs = append(cs, Lt(ls[i], bounds[i]))
+		case "":
+			if l.Sort == SInt {
+				switch l.Typ.Underlying().(type) {
+				case *types.Pointer, *types.Map, *types.Chan:
+					cs = append(cs, Lt(ls[i], bounds[i]))
 				}
 			}
 		}
